@@ -377,6 +377,10 @@ func (h *vHarness) mkRequest(pool []vEmitter, kind int) (*spyv1.SubscribeSignedV
 		for i, k := 0, 2+r.Intn(3); i < k; i++ {
 			add(uint32(e.chain), hx(e))
 		}
+	case 10: // every filter names chain 0 (what a client that never set the field sends) with a pool address: matches only chain-0 VAAs
+		for i, k := 0, 1+r.Intn(2); i < k; i++ {
+			add(0, hx(pick()))
+		}
 	case 4: // right address on another chain / right chain with another address: must not match
 		e, o := pick(), pick()
 		add(uint32(e.chain)+1, hx(e))
@@ -424,7 +428,7 @@ func (h *vHarness) deliverySequence(scale int) {
 	s := newSpyServer(zap.NewNop())
 	pool := make([]vEmitter, 4)
 	for i := range pool {
-		pool[i].chain = uint16([]int{1, 2, 255, 65535}[r.Intn(4)])
+		pool[i].chain = uint16([]int{1, 2, 255, 65535, 0}[r.Intn(5)]) // 0 = CHAIN_ID_UNSPECIFIED: a chain id like any other here
 		r.Read(pool[i].addr[:])
 	}
 	pool[1].chain = pool[0].chain // same chain, different address
@@ -442,7 +446,7 @@ func (h *vHarness) deliverySequence(scale int) {
 	subscribe := func() {
 		kind := r.Intn(6)
 		if r.Intn(5) == 0 {
-			kind = 6 + r.Intn(4)
+			kind = 6 + r.Intn(5)
 		}
 		req, fs := h.mkRequest(pool, kind)
 		vs, res := vSubscribe(s, nextID, req, false, h.deadline)
@@ -531,6 +535,13 @@ func (h *vHarness) deliverySequence(scale int) {
 			for _, sub := range s.subs {
 				chans = append(chans, vCh(sub))
 			}
+			// ... and of every subscription this sequence ever registered, also those that have left (code that keeps a
+			// reference to a departed subscription can be stuck on its channel)
+			for _, x := range subs {
+				if x.sub != nil {
+					chans = append(chans, vCh(x.sub))
+				}
+			}
 			go func() {
 				for {
 					select {
@@ -547,7 +558,12 @@ func (h *vHarness) deliverySequence(scale int) {
 					time.Sleep(time.Millisecond)
 				}
 			}()
-			<-late
+			select {
+			case <-late:
+			case <-time.After(2 * h.deadline):
+				// nothing the harness can reach unblocks it: this server is abandoned, the line below records the blocked Publish
+				h.stuck += 3
+			}
 			close(stop)
 		}
 		var parts []string
